@@ -456,6 +456,65 @@ fn numeral_pass(total: &Mutex<Acc>) -> u64 {
     n
 }
 
+/// String pass: comparisons and the logical operators over every ordered pair (and NOT over
+/// every member) of a string set chosen to separate byte-wise lexicographic order from its
+/// look-alikes (length first, case folded, locale collation, numeric reading), plus the
+/// number-like values that count as true.
+fn string_pass(total: &Mutex<Acc>) -> u64 {
+    let strs = ["", "A", "B", "AB", "a", "b", "Z", "\u{e9}", "z", " ", "A ", "1", "10", "9", "0", "-1"];
+    let nums = [0.0, 1.0, -1.0, 0.5, -0.0, 1e-320, 2.0];
+    let mut exprs: Vec<Expr> = vec![];
+    for op in [Bin::Eq, Bin::Ne, Bin::Lt, Bin::Le, Bin::Gt, Bin::Ge, Bin::And, Bin::Or] {
+        for a in strs {
+            for b in strs {
+                exprs.push(bin(op, st(a), st(b)));
+            }
+        }
+        for a in nums {
+            for b in nums {
+                exprs.push(bin(op, num(a), num(b)));
+            }
+            for b in strs.iter().take(3) {
+                exprs.push(bin(op, num(a), st(b)));
+                exprs.push(bin(op, st(b), num(a)));
+            }
+        }
+    }
+    for a in strs {
+        exprs.push(un(Un::Not, st(a)));
+    }
+    for a in nums {
+        // (a negative numeral is itself a unary minus, and only a single unary is in the language)
+        if a.is_sign_positive() {
+            exprs.push(un(Un::Not, num(a)));
+        }
+    }
+    let n = exprs.len() as u64;
+    exprs.par_chunks(64).for_each(|chunk| {
+        let mut acc = Acc::default();
+        for e in chunk {
+            check_tree(e, &mut acc);
+        }
+        let mut t = total.lock().unwrap();
+        t.trees += acc.trees;
+        t.evaluations += acc.evaluations;
+        t.defined += acc.defined;
+        t.undefined += acc.undefined;
+        t.violating += acc.violating;
+        for (k, v) in acc.per_size {
+            *t.per_size.entry(k).or_insert(0) += v;
+        }
+        for (k, v) in acc.errors {
+            *t.errors.entry(k).or_insert(0) += v;
+        }
+        t.values.extend(acc.values);
+        if t.violations.len() < 400 {
+            t.violations.extend(acc.violations);
+        }
+    });
+    n
+}
+
 pub fn run(thorough: bool) -> Report {
     let mut rep = Report::new("C02", "exploration");
     let total = Mutex::new(Acc::default());
@@ -526,6 +585,7 @@ pub fn run(thorough: bool) -> Report {
     // give what a fresh interpreter gives.
     let session = session_pass(&total, &[]) + session_pass(&total, &["10 DEF ABS(X)=X*2: DEF INT(N)=N+100", "RUN"]);
     let numerals = numeral_pass(&total);
+    let string_exprs = string_pass(&total);
     let acc = total.into_inner().unwrap();
     if acc.errors.len() < 2 || acc.values.len() < 10 {
         machinery("vacuous: too few distinct outcomes");
@@ -550,6 +610,7 @@ pub fn run(thorough: bool) -> Report {
         "trees": acc.trees,
         "session_pass_expressions_in_long_lived_interpreters": session,
         "numeral_spellings_checked_against_the_nearest_double": numerals,
+        "string_and_truth_value_expressions": string_exprs,
         "trees_per_operator_count": acc.per_size,
         "families": fam_desc,
         "reference_defined": acc.defined,
